@@ -35,13 +35,13 @@ pub const KINDS: &[&str] = &[
     "tx_bytes", "tx_hex", "txin_hex", "txout_hex", "txin_cbor", "txin_cbor_hex", "tx_cbor", "tx_cbor_hex", "tx_json", "outpoint", "script_bytes", "script_hex", "script_asm", "script_chunks",
     "template_asm", "wif", "privkey_hex", "privkey_bytes", "pubkey_hex", "pubkey_bytes", "xprv", "xpub", "xprv_path", "xpub_path", "xprv_seed", "address", "pubkey_hash", "sig_der", "sig_der_hex",
     "sig_compact", "sighash_sig", "ecies_with_key", "ecies_no_key", "aes128cbc_key", "aes128cbc_iv", "aes128cbc_ct", "aes256cbc_key", "aes256cbc_ct", "aes128ctr_key", "aes128ctr_iv", "aes256ctr_key",
-    "aes256ctr_iv", "aes_ctr_ct", "digest_verify", "digest_sign", "digest_recover", "json_txin", "json_txout", "json_script", "json_pubkey", "json_address", "bsm_sig_compact", "sighash_flag", "pubkey_decompress", "pubkey_hex_compress",
+    "aes256ctr_iv", "aes_ctr_ct", "digest_verify", "digest_sign", "digest_recover", "json_txin", "json_txout", "json_script", "json_pubkey", "json_address", "bsm_sig_compact", "sighash_flag", "pubkey_decompress", "pubkey_hex_compress", "json_hash", "json_kdf", "mnemonic", "template_match",
 ];
 
 fn is_text_kind(k: &str) -> bool {
     matches!(
         k,
-        "tx_hex" | "txin_hex" | "txout_hex" | "txin_cbor_hex" | "tx_cbor_hex" | "tx_json" | "script_hex" | "script_asm" | "template_asm" | "wif" | "privkey_hex" | "pubkey_hex" | "xprv" | "xpub" | "xprv_path" | "xpub_path" | "address" | "sig_der_hex" | "json_txin" | "json_txout" | "json_script" | "json_pubkey" | "json_address" | "pubkey_hex_compress"
+        "tx_hex" | "txin_hex" | "txout_hex" | "txin_cbor_hex" | "tx_cbor_hex" | "tx_json" | "script_hex" | "script_asm" | "template_asm" | "wif" | "privkey_hex" | "pubkey_hex" | "xprv" | "xpub" | "xprv_path" | "xpub_path" | "address" | "sig_der_hex" | "json_txin" | "json_txout" | "json_script" | "json_pubkey" | "json_address" | "pubkey_hex_compress" | "json_hash" | "json_kdf" | "template_match"
     )
 }
 
@@ -133,6 +133,16 @@ fn consume(kind: &str, input: &[u8]) -> &'static str {
         "json_address" => r(serde_json::from_str::<P2PKHAddress>(&text())),
         "bsm_sig_compact" => r(Signature::from_compact_bytes(input).and_then(|s| BSM::verify_message(b"hello", &s, &P2PKHAddress::from_pubkey(&k1.to_public_key()?)?))),
         "sighash_flag" => r(SigHash::try_from(*input.first().unwrap_or(&0))),
+        "json_hash" => r(serde_json::from_str::<Hash>(&text())),
+        "json_kdf" => r(serde_json::from_str::<KDF>(&text())),
+        "mnemonic" => r(ExtendedPrivateKey::from_mnemonic(input, if input.len() % 2 == 0 { None } else { Some(input.iter().rev().cloned().collect()) })),
+        "template_match" => r(ScriptTemplate::from_asm_string(&text()).map(|t| {
+            // a decoded template is used for matching: against a standard script, an empty one and one of its own length
+            let p2pkh = Script::from_asm_string("OP_DUP OP_HASH160 0011223344556677889900112233445566778899 OP_EQUALVERIFY OP_CHECKSIG").unwrap();
+            let _ = p2pkh.is_match(&t);
+            let _ = Script::default().is_match(&t);
+            let _ = p2pkh.matches(&t).is_ok();
+        })),
         _ => "err",
     }
 }
@@ -556,6 +566,22 @@ impl ArtefactMedium {
                 vec![],
             ),
             "sighash_flag" => (vec![*rng.pick(&crate::scen_txhist::FLAGS)], vec![]),
+            "json_hash" => {
+                let n = rng.range(0, 40) as usize;
+                (serde_json::to_string(&Hash::sha_256(&rng.bytes(n))).unwrap_or_default().into_bytes(), vec![])
+            }
+            "json_kdf" => {
+                let k = KDF::pbkdf2(b"pw", Some(rng.bytes(8)), PBKDF2Hashes::SHA256, 1, 16);
+                (serde_json::to_string(&k).unwrap_or_default().into_bytes(), vec![])
+            }
+            "mnemonic" => {
+                let n = *rng.pick(&[0usize, 1, 12, 64, 128, 129, 300]);
+                (rng.bytes(n), vec![])
+            }
+            "template_match" => {
+                let opts = ["OP_DUP OP_HASH160 OP_PUBKEYHASH OP_EQUALVERIFY OP_CHECKSIG", "OP_DUP OP_HASH160 OP_DATA=20 OP_EQUALVERIFY OP_CHECKSIG", "OP_SIG OP_PUBKEY OP_DATA OP_DATA>=1 OP_DATA<=75", "OP_DATA>3 OP_DATA<9 OP_DATA=0 0 1 16", "OP_DUP OP_HASH160 0011223344556677889900112233445566778899 OP_EQUALVERIFY OP_CHECKSIG"];
+                (rng.pick(&opts).as_bytes().to_vec(), vec![])
+            }
             _ => (vec![], vec![]),
         }
     }
@@ -748,9 +774,9 @@ impl Scenario for ArtefactMedium {
         ScenarioInfo {
             property: "C09",
             name: "artefact-medium",
-            rule: "one case = one valid artefact produced by the real encoder for one of 55 decoder kinds, 0-3 medium faults (truncate at an offset, bit flip, byte set, length-field inflation with 39 compact-size / PUSHDATA / CBOR-head patterns, JSON value substitution, text token substitution/insertion at located length offsets or seeded offsets, junk extension/prepend, splice, duplication, emptying, random replacement, conditional nesting), optional misdelivery to another decoder, then the real decode call under an allocator budget of 1024*len+8MiB in a worker whose death is attributed by breadcrumb; non-trivial = at least one fault or misdelivery fired; distinct = distinct (stored kind, consuming decoder, fault kinds and parameters classes, outcome) fingerprint",
+            rule: "one case = one valid artefact produced by the real encoder for one of 59 decoder kinds, 0-3 medium faults (truncate at an offset, bit flip, byte set, length-field inflation with 39 compact-size / PUSHDATA / CBOR-head patterns, JSON value substitution, text token substitution/insertion at located length offsets or seeded offsets, junk extension/prepend, splice, duplication, emptying, random replacement, conditional nesting), optional misdelivery to another decoder, then the real decode call under an allocator budget of 1024*len+8MiB in a worker whose death is attributed by breadcrumb; non-trivial = at least one fault or misdelivery fired; distinct = distinct (stored kind, consuming decoder, fault kinds and parameters classes, outcome) fingerprint",
             abstract_state: "(consuming decoder, fault-kind set, outcome ok/err)",
-            real: &["55 public decoding entry points of bsv (Transaction/TxIn/TxOut wire+hex+CBOR+JSON, Script bytes/hex/asm/chunks, ScriptTemplate, PrivateKey WIF/hex/bytes, PublicKey, ExtendedPrivateKey/ExtendedPublicKey strings, paths, seeds, P2PKHAddress, Signature DER/compact, SighashSignature, ECIESCiphertext+decrypt, AES key/iv/ciphertext, digest-taking ECDSA entry points, serde JSON of TxIn/TxOut/Script/PublicKey/P2PKHAddress, BSM verify)", "the real encoders as producers", "the process heap through a counting allocator that refuses over-budget requests", "process death (SIGABRT/SIGSEGV/SIGALRM) observed by the parent"],
+            real: &["59 public decoding entry points of bsv (Transaction/TxIn/TxOut wire+hex+CBOR+JSON, Script bytes/hex/asm/chunks, ScriptTemplate, PrivateKey WIF/hex/bytes, PublicKey, ExtendedPrivateKey/ExtendedPublicKey strings, paths, seeds, P2PKHAddress, Signature DER/compact, SighashSignature, ECIESCiphertext+decrypt, AES key/iv/ciphertext, digest-taking ECDSA entry points, serde JSON of TxIn/TxOut/Script/PublicKey/P2PKHAddress, BSM verify)", "the real encoders as producers", "the process heap through a counting allocator that refuses over-budget requests", "process death (SIGABRT/SIGSEGV/SIGALRM) observed by the parent"],
             stub: &["the medium (byte-level fault plan)"],
             assumptions: &["alpha=1024, beta=8MiB: alpha calibrated as 4x the largest fault-free peak/len ratio observed; beta leaves room for constant-size scratch buffers (wire decode of dense one-byte-opcode scripts ~185x); the fault-free ratio histogram is written to evidence on every run", "text decoders receive String::from_utf8_lossy of the damaged bytes (Rust strings are valid UTF-8 by construction)", "overflow-checks are on, as in the repository's own test profile"],
             required_probes: &["fault:truncate", "fault:inflate", "fault:flip", "fault:json_value", "fault:token", "misdelivered", "decode_ok", "decode_err", "fault_free_decode"],
@@ -784,7 +810,7 @@ impl Scenario for ArtefactMedium {
         for _ in 0..n_faults {
             let big = if tier == Tier::Thorough && rng.chance(1, 50) { 200_000 } else { 3000 };
             let json_kind = kind.starts_with("json_") || kind == "tx_json";
-            let token_kind = matches!(kind, "script_asm" | "template_asm" | "xprv_path" | "xpub_path");
+            let token_kind = matches!(kind, "script_asm" | "template_asm" | "template_match" | "xprv_path" | "xpub_path");
             let f = if json_kind && rng.chance(1, 2) {
                 json!({"f": "json_value", "k": rng.below(12), "with": *rng.pick(&["1", "-1", "0", "1e400", "18446744073709551616", "4294967296", "null", "true", "[]", "{}", "\"\"", "\"zz\"", "\"00\"", "[1,2,3]", "{\"a\":1}", "1.5", "\"\u{e9}\u{20ac}\"", "\"0\u{e9}1\"", "\"\u{20ac}0\"", "\"z\u{e9}0\"", "\"00\u{e9}\"", "\"0\\u00e91\"", "99999999999999999999999999999999999999"])})
             } else if token_kind && rng.chance(1, 2) {
